@@ -26,7 +26,30 @@ def monitor(c, tr):
     w = dc.monitor_async(c, tr)
     if w:
         return w
-    # POLLOUT armed iff the queue of a registered socket is non-empty; pool occupancy = held + queued (at operation boundaries)
+    # pool occupancy at operation boundaries = buffers the scenario holds + buffers of sends whose future is still pending: a buffer
+    # goes back to its pool no later than the end of the driver step in which its future resolves (last clause of C02)
+    pending, held, group = set(), 0, None
+    for k, a in tr:
+        if k == 23:
+            if a[0] < 1000:
+                group = (group or 0) + a[1]
+            continue
+        if group is not None:
+            if group > held + len(pending):
+                return ("%d buffer(s) of the user pools are outstanding although the scenario holds %d and only %d queued send(s) have a pending future: "
+                        "a sent buffer was not back in its pool at the end of the step in which its future resolved" % (group, held, len(pending)))
+            group = None
+        if k == 20 and a[1] == 1:
+            if a[0] in (61, 62):
+                pending.add(a[2])
+            elif a[0] == 11:
+                held += 1
+            elif a[0] == 12:
+                held = max(0, held - 1)
+            elif a[0] == 14:
+                held = 0
+        elif k == 22 and a[1] != 0:
+            pending.discard(a[0])
     return None
 
 
